@@ -174,6 +174,7 @@ func main() {
 	scenarios := flag.Int("scenarios", 16, "number of scenarios")
 	par := flag.Int("par", 16, "parallel scenarios")
 	kinds := flag.String("kinds", "", "comma separated scenario kinds (default: all, round robin)")
+	flag.String("serial", "gate_remove_race", "comma separated scenario kinds run one by one after the others (they hold process-wide gates)")
 	flag.Parse()
 	if os.Getenv("VERIF_DEBUG") == "" {
 		logger.SetGlobalQuietMode()
@@ -185,7 +186,12 @@ func main() {
 	if *kinds != "" {
 		ks = strings.Split(*kinds, ",")
 	}
-	scs := make([]*scen, *scenarios)
+	serial := flag.Lookup("serial").Value.String()
+	var sk []string
+	if serial != "" {
+		sk = strings.Split(serial, ",")
+	}
+	scs := make([]*scen, *scenarios+len(sk))
 	sem := make(chan struct{}, *par)
 	var wg sync.WaitGroup
 	for i := 0; i < *scenarios; i++ {
@@ -212,6 +218,22 @@ func main() {
 		}(i)
 	}
 	wg.Wait()
+	for k, kind := range sk {
+		i := *scenarios + k
+		sc := &scen{kind: kind, idx: i, col: col, rng: rand.New(rand.NewSource(*seed*7919 + int64(i))), desc: map[string]any{"kind": kind, "idx": i}, labels: map[string]bool{}}
+		scs[i] = sc
+		func() {
+			defer func() {
+				if p := recover(); p != nil {
+					if _, ok := p.(stop); !ok {
+						panic(p)
+					}
+				}
+				sc.finish()
+			}()
+			sc.run()
+		}()
+	}
 	f, err := os.Create(*hookOut)
 	if err != nil {
 		res.Inconclusive = append(res.Inconclusive, err.Error())
